@@ -215,3 +215,47 @@ def str_as_bytes(ctx, args, st):
     if c is not None:
         return ret(st, st.ref(VecV([Int(b, 'u8') for b in c.encode('utf-8')], 'slice')))
     return ret(st, st.ref(Opaque(('bytes-of', repr(s)))))
+
+
+def _first_is(ex, st, s, cval):
+    """generator (st, bool): first char of s equals the concrete char cval"""
+    if not s.chars:
+        yield st, False; return
+    c0 = s.chars[0]
+    if isinstance(c0, int):
+        yield st, c0 == cval; return
+    yield from ex.fork_bool(st, c0 == cval)
+
+
+def _char_arg(v):
+    c = v.concrete() if isinstance(v, Char) else None
+    if c is None: raise Unsupported('string pattern must be a concrete char here')
+    return c
+
+
+@model(r'^(?:core::)?str::<impl str>::strip_prefix::<char>$')
+def str_strip_prefix_char(ctx, args, st):
+    s = str_of(st, args[0]); c = _char_arg(args[1])
+    def g():
+        for s2, yes in _first_is(ctx.ex, st, s, c):
+            yield s2, 'ret', (Some(s2.ref(StrV(s.chars[1:], 'str'))) if yes else NONE)
+    return g()
+
+
+@model(r'^(?:core::)?str::<impl str>::(trim_start_matches|trim_left_matches)::<char>$')
+def str_trim_start_matches_char(ctx, args, st):
+    s = str_of(st, args[0]); c = _char_arg(args[1])
+    def go(s_, cur):
+        for s2, yes in _first_is(ctx.ex, s_, cur, c):
+            if yes: yield from go(s2, StrV(cur.chars[1:], 'str'))
+            else: yield s2, 'ret', s2.ref(cur.retag('str'))
+    return go(st, s)
+
+
+@model(r'^(?:core::)?str::<impl str>::starts_with::<char>$')
+def str_starts_with_char(ctx, args, st):
+    s = str_of(st, args[0]); c = _char_arg(args[1])
+    def g():
+        for s2, yes in _first_is(ctx.ex, st, s, c):
+            yield s2, 'ret', Bool(yes)
+    return g()
